@@ -1,7 +1,7 @@
 (** Properties/C04.v — "Serialised objects parse back to the same value".  The round trip is a corollary of
     conformance of the writer: what [ser] writes is a spelling in the sense of C03 ([spells] + [renders]). *)
 From PdfV Require Import Base.Prelude Base.DecProofs Gen.Generated Lex.Lexer Lex.StrLexer Lex.LexProofs Lex.StrProofs
-  Syn.Prim Syn.Utf8 Syn.Parser Syn.Serialize Syn.Spells Syn.ParserProofs Syn.NameProofs Syn.RenderProofs Syn.SerProofs.
+  Syn.Prim Syn.Utf8 Syn.Parser Syn.Serialize Syn.Spells Syn.ParserProofs Syn.NameProofs Syn.RenderProofs Syn.SerProofs Syn.IndirectSerProofs.
 
 (** the writer is conformant: for every storable value the bytes it writes are the items [items_of v] (which denote v),
     separated and delimited as the standard requires, whatever non-regular byte follows *)
@@ -41,6 +41,17 @@ Theorem C04_string_hex : forall s, wf_bytes s ->
   hex_run s (flat_map (fun b => [hexdig_lower (b / 16); hexdig_lower (b mod 16)]) s).
 Proof. exact ser_string_hex_run. Qed.
 Print Assumptions C04_string_hex.
+
+(** placement "indirect-object body": the object as Storage::write_revision writes it (header and terminator literals regenerated
+    from file.rs) is read back as exactly (id, gen, v) — scalars included — and the parser stops right behind `endobj` *)
+Theorem C04_indirect_body : forall v id gen,
+  storable v -> vdepth v <= MAX_DEPTH -> id < 18446744073709551616 -> gen < 18446744073709551616 ->
+  forall R allow rest p,
+  exists body, ser v = Ok body /\
+    parse_indirect_object R allow F_ANY (mkLx p (obj_text id gen body rest)) =
+      Ok (id, gen, v, mkLx (p + lenN (obj_text id gen body rest) - lenN ([10] ++ rest)) ([10] ++ rest)).
+Proof. exact ser_indirect_roundtrip. Qed.
+Print Assumptions C04_indirect_body.
 
 (** serialising never panics — for every value, storable or not *)
 Theorem C04_ser_no_panic : forall v s, ser v <> Panic s.
